@@ -462,6 +462,10 @@ def run(ctx):
                 for mode, h in ((0, []), (1, [3, 4] if api in ("code128", "codabar") else [])):
                     gen_inputs.append(E("runs", api, c["a"][:3] + [mode], c["b"], h))
                     gen_meta.append(c)
+                # pixel rows that end with the symbol's last bar (no trailing quiet zone), forward and reversed
+                for mode in (1, 2):
+                    gen_inputs.append(E("runs", api, c["a"][:3] + [mode, 0], c["b"], []))
+                    gen_meta.append(c)
         else:
             gen_inputs.append(E(c["op"], c["api"], c["a"], c["b"], c["h"]))
             gen_meta.append(c)
@@ -484,7 +488,20 @@ def run(ctx):
     if obs_e:
         o = obs_e[1 % len(obs_e)]
         ctx.sample(dict(kind="ECI block (form, first value, count): outcome codes per value", event=dict(op=o["op"], a=o["a"], r=o["r"][:40])))
-    fz = fuzz(ctx, rng, nfuzz) + symbol_events(rng, cases + [dict(op=s["op"], a=s["a"], b=s["b"]) for s in seeded], nsym)
+    # every QR (version, level) pair: a symbol of the real encoder, undamaged and with a few flipped modules, into the matrix decoder
+    # (and, for small versions, rendered into the image reader): reaches every row of the decoder's per-version tables
+    allv = []
+    for v in range(1, 41):
+        for lv in range(4):
+            allv.append(E("qrv", "qr.decoder", [v, lv, rng.randrange(1 << 30), 0, 0]))
+            allv.append(E("qrv", "qr.decoder", [v, lv, rng.randrange(1 << 30), rng.choice([1, 3, 9, 40]), 0]))
+            if v <= 6 or not ctx.quick:
+                allv.append(E("qrv", "qr", [v, lv, rng.randrange(1 << 30), rng.choice([0, 2]), rng.randrange(3)]))
+                # mirrored symbols, through the locating path and in pure-barcode mode (hint 1), with and without TRY_HARDER
+                allv.append(E("qrv", "qr", [v, lv, rng.randrange(1 << 30), 0, rng.randrange(3), 1], h=[1] + ([2] if lv % 2 else [])))
+                allv.append(E("qrv", rng.choice(["qr", "multiqr"]), [v, lv, rng.randrange(1 << 30), rng.choice([0, 1]), rng.randrange(3), 1]))
+            allv.append(E("qrv", "qr.decoder", [v, lv, rng.randrange(1 << 30), 0, 0, 1]))
+    fz = allv + fuzz(ctx, rng, nfuzz) + symbol_events(rng, cases + [dict(op=s["op"], a=s["a"], b=s["b"]) for s in seeded], nsym)
     rng.shuffle(fz)
     obs = judge(ctx, fz, "seeded fuzz call")
     kinds = collections.Counter((o["op"], "result" if o["res"] and not o["err"] else o["err"] or "-") for o in obs if not o.get("skip"))
